@@ -165,6 +165,7 @@ def parts(tier):
     return [
         {"name": "constructions", "kind": "hypothesis", "strategy": lambda: GS.constructions(FMT), "examples": 2500 if q else 16 * 6000},
         {"name": "boundary-sized", "kind": "hypothesis", "strategy": lambda: GS.boundary_constructions(FMT), "examples": 192 if q else 16 * 80},
+        {"name": "boundary-grid", "kind": "fixed", "cases": lambda: GS.boundary_grid(FMT)},
         {"name": "histories", "kind": "hypothesis", "strategy": lambda: GS.histories(FMT), "examples": 1500 if q else 16 * 3000},
         {"name": "machine", "kind": "machine", "factory": lambda: machine_factory(FMT, wrap_unexpected(roundtrip)), "examples": 300 if q else 16 * 500, "steps": 25 if q else 50},
     ]
